@@ -7,7 +7,19 @@ HELD = "verdict is 'held on the executions explored', not a proof for all inputs
 PROPS = {}
 
 
+def _enabled():
+    import os
+    f = os.path.join(os.path.dirname(os.path.abspath(__file__)), "enabled.txt")
+    if not os.path.exists(f):
+        return None
+    return set(l.strip() for l in open(f) if l.strip() and not l.startswith("#"))
+
+
 def prop(pid, **kw):
+    en = _enabled()
+    if en is not None and pid not in en and "disabled" not in kw:
+        # harness still under construction / under review: usable through ./check but not claimed in MANIFEST.json
+        kw["disabled"] = "runtime monitor under construction in this round (harness exists but is not yet accepted: see DESIGN.md section 9)"
     kw.setdefault("level", "exploration")
     kw.setdefault("assumptions", [])
     kw["assumptions"] = list(kw["assumptions"]) + [SAN_ASSUME, HELD]
